@@ -1162,11 +1162,12 @@ func init() {
 	harness.Register(&harness.Prop{
 		ID: "C18", Engine: "E4", Level: "exploration", Gen: genC18, Exec: execC18,
 		Runs:      map[string]int{"quick": 10000, "thorough": 400000},
-		Rule:      "one simulated run = one testing/synctest bubble in a -race binary; tasks (caller goroutines + the library's own ticker/monitor goroutines) are serialised by seeded fake-clock delays at yield points (operation boundaries, every I/O call through the H3/H4 seams, the H2 sites in the incremental/smart rebalancers and the selector, timer firings), which creates no happens-before edge, so the race detector reports every unsynchronised conflicting access pair that occurs; three workload kinds: (a) 2-5 independent handles (readers on shared files, writers on own files) whose results must equal the sequential ones, (b) one foreground task on a WritableBTreeV2 (insert/lazy delete/search/progress/stats/enable/stop, stop twice, enable after stop) against the incremental ticker at fake intervals of 1-8 microseconds, (c) 1-4 caller tasks on one SmartRebalancer (Record/Evaluate/GetStats/GetMetrics/Start/Stop) against its monitor goroutine, with an adapter over the real B-tree so mode changes really start and stop the incremental loop; oracles: no race report with a library frame, no panic, every Stop returns within the step budget, no library goroutine after the last Stop, results equal to sequential; non-trivial = a background event between two foreground events, or >= 2 switches between foreground tasks; distinct interleavings = distinct hashes of the (task, site) sequence",
+		Rule:      "one simulated run = one testing/synctest bubble in a -race binary; tasks (caller goroutines + the library's own ticker/monitor goroutines) are serialised by seeded fake-clock delays at yield points (operation boundaries, every I/O call through the H3/H4 seams, the H2 sites in the incremental/smart rebalancers and the selector, timer firings), which creates no happens-before edge, so the race detector reports every unsynchronised conflicting access pair that occurs; four workload kinds, the fourth (d, 1 in 11) without a bubble: (d) 2-14 operations on one WorkloadDetector (Record/ExtractFeatures/DetectWorkloadType/GetStats/IsClosed/Close) with an inline interleaving at the injected Clock seam - when the library reads the clock the simulator probes the detector's own lock with TryLock and, if it is free (another goroutine could get in at this instant), runs a whole second operation (Close/Record/ExtractFeatures/GetStats) right there before the first continues; results must be those of a sequential order (no panic, Record returns nil or 'closed', nothing accepted after a returned Close); (a) 2-5 independent handles (readers on shared files, writers on own files) whose results must equal the sequential ones, (b) one foreground task on a WritableBTreeV2 (insert/lazy delete/search/progress/stats/enable/stop, stop twice, enable after stop) against the incremental ticker at fake intervals of 1-8 microseconds, (c) 1-4 caller tasks on one SmartRebalancer (Record/Evaluate/GetStats/GetMetrics/Start/Stop) against its monitor goroutine, with an adapter over the real B-tree so mode changes really start and stop the incremental loop; oracles: no race report with a library frame, no panic, every Stop returns within the step budget, no library goroutine after the last Stop, results equal to sequential; non-trivial = a background event between two foreground events, or >= 2 switches between foreground tasks; distinct interleavings = distinct hashes of the (task, site) sequence",
 		Technique: "deterministic simulation: seeded fake-time scheduler inside testing/synctest under the race detector",
 		Assumptions: []string{"the B-tree writer API is documented as not thread-safe: exactly one foreground task drives it; several callers are used only where the code promises thread-safety (smart rebalancer) or independence (distinct handles)",
+			"workload (d): on the unchanged tree every clock reading happens with the detector's lock held, so no interleaving can be injected there (probe inline:interleaving-injected stays 0, inline:seam-entered-with-lock-held counts the probes); an injection only becomes possible when a change opens a window",
 			"interleavings are explored at the granularity of yield points, I/O calls and timer firings, not of individual memory accesses (data races are still reported whatever the order, because the detector is happens-before based)"},
-		RealVsStub:      map[string]string{"real": "internal/structures B-tree + incremental rebalancer, internal/rebalancing smart rebalancer/detector/selector/metrics, public read/write API, Go runtime race detector", "simulated": "clock (synctest fake time), scheduler (seeded delays), buffer pool (deterministic, poisoning), I/O yields behind H3/H4", "stub": "the rebalancing.BTreeV2 adapter over the real WritableBTreeV2 (the repository has no implementation outside test mocks)"},
+		RealVsStub:      map[string]string{"real": "internal/structures B-tree + incremental rebalancer, internal/rebalancing smart rebalancer/detector/selector/metrics, public read/write API, Go runtime race detector", "simulated": "clock (synctest fake time), scheduler (seeded delays; lock-probing inline interleaving at the Clock seam), buffer pool (deterministic, poisoning), I/O yields behind H3/H4", "stub": "the rebalancing.BTreeV2 adapter over the real WritableBTreeV2 (the repository has no implementation outside test mocks)"},
 		NeedsTestBinary: true, ReplayAttempts: 8,
 		MaxShrinkExecs: 120,
 	})
